@@ -387,7 +387,9 @@ def _check_merge_guards(ctx: Ctx, merge: FuncInfo, cfg_cls: ClassInfo) -> None:
         raise AnalysisError("merge loop not found")
     head = loops[0]
     # the loop runs over fields(FlowmarkConfig)
-    it = head.ast.iter
+    it = expand_expr(prog, merge, head.ast.iter, head, strict=False)
+    if isinstance(it, (ast.GeneratorExp, ast.ListComp)) and len(it.generators) == 1 and not it.generators[0].ifs:
+        it = it.generators[0].iter  # (f.name for f in fields(C)): still one element per field
     ok_iter = isinstance(it, ast.Call) and call_name(prog, merge, it) == "dataclasses.fields" and it.args and \
         ctx.repo.resolve_expr(it.args[0], merge.module, merge) is cfg_cls
     ctx.ob("R-CONFIG-K6", f"{merge.qual} :: loop over all config fields", bool(ok_iter),
@@ -476,8 +478,16 @@ def _check_find_config(ctx: Ctx) -> None:
     fors = [h for h in flow.cfg.nodes if h.kind == "for"]
     name_loop = None
     names: list[str] | None = None
+    product_outer: dict[int, list[ast.AST]] = {}
     for h in fors:
-        org = origins(prog, fi, h.ast.iter, h)
+        it_e = expand_expr(prog, fi, h.ast.iter, h, strict=False)
+        src = h.ast.iter
+        if isinstance(it_e, ast.Call) and isinstance(it_e.func, (ast.Name, ast.Attribute)) and (norm(it_e.func) in ("product", "itertools.product")) \
+                and len(it_e.args) >= 2 and not it_e.keywords:
+            # for d, name in product(DIRS, NAMES): nested loops written as one - the last argument varies fastest
+            src = it_e.args[-1]
+            product_outer[h.id] = list(it_e.args[:-1])
+        org = origins(prog, fi, src, h)
         for o in org:
             if o[0] == "global":
                 d = repo.module(o[1].split(":")[0]).defs.get(o[1].split(":")[1]) if ":" in o[1] else None
@@ -499,6 +509,10 @@ def _check_find_config(ctx: Ctx) -> None:
               or (w.kind == "for" and any(isinstance(x, ast.Attribute) and x.attr == "parents" for x in ast.walk(expand_expr(prog, fi, w.ast.iter, w))))]
     nested = any(name_loop in flow.loop_body_nodes(w) for w in whiles)
     inverted = any(w in flow.loop_body_nodes(name_loop) for w in whiles)
+    if name_loop.id in product_outer:
+        outer = product_outer[name_loop.id]
+        nested = any(isinstance(x, ast.Attribute) and x.attr == "parents" for a in outer for x in ast.walk(expand_expr(prog, fi, a, name_loop, strict=False)))
+        whiles = whiles or [name_loop]
     ctx.ob("R-CONFIG-K5", f"{fi.qual} :: nearest directory first", nested and not inverted,
            "the file-name loop must run inside the upward directory walk (nearest config wins over file-name priority)", where(fi, name_loop))
     # every successful return is guarded by an is_file() test; the pyproject arm by the [tool.flowmark] test
